@@ -418,7 +418,8 @@ impl Directive {
                     if let Some(Operand::E(Expr::Ident(name))) = values.first() {
                         // the #define would take the place of the symbol wherever the name is used
                         let symbol = name.to_lowercase();
-                        if context.common_context.get_equ(&symbol).is_some()
+                        if symbol == "pc"
+                            || context.common_context.get_equ(&symbol).is_some()
                             || context.common_context.get_set(&symbol).is_some()
                             || context.common_context.get_def(&symbol).is_some()
                             || context.common_context.get_label(&symbol).is_some()
